@@ -1503,6 +1503,12 @@ func (c *clipperBase) checkJoinRight(e *Active, pt Point64, checkCurrX bool) {
 		return
 	}
 
+	if checkCurrX {
+		// pt is an intersection point on e; when the crossing edge was not
+		// contributing it has not been added to e's path yet
+		addOutPt(e, pt)
+	}
+
 	if e.outrec.idx == next.outrec.idx {
 		c.addLocalMaxPoly(e, next, pt)
 	} else if e.outrec.idx < next.outrec.idx {
@@ -1538,6 +1544,12 @@ func (c *clipperBase) checkJoinLeft(e *Active, pt Point64, checkCurrX bool) {
 
 	if !isCollinear(e.top, pt, prev.top) {
 		return
+	}
+
+	if checkCurrX {
+		// pt is an intersection point on e; when the crossing edge was not
+		// contributing it has not been added to e's path yet
+		addOutPt(e, pt)
 	}
 
 	if e.outrec != nil && prev.outrec != nil && e.outrec.idx == prev.outrec.idx {
